@@ -28,8 +28,17 @@ def quiet(fn):
 
 
 # ------------------------------------------------------------------ typed data (JSON) -> numpy
+WIDE = {"int8": [100, 127, -128, -100, 50, 3], "uint8": [200, 255, 100, 1, 0, 3], "int16": [30000, -32768, 200, 3], "uint16": [65535, 40000, 300, 1],
+        "int32": [2 ** 31 - 1, -2 ** 31, 70000, 3], "uint32": [2 ** 32 - 1, 70000, 1, 0], "int64": [2 ** 63 - 1, -2 ** 63, 2 ** 40, 3],
+        "uint64": [2 ** 64 - 1, 2 ** 63, 1, 0], "float16": [2048.0, 1.0, 0.1, 100.0, -3.0], "float32": [16777216.0, 1.0, 0.1, 1e18, -3.0],
+        "complex64": [16777216.0, 1.0, 0.1, -3.0]}
+
+
 def pool(dt, small):
     d = numpy.dtype(dt)
+    if small == "wide" and dt in WIDE:
+        return WIDE[dt]     # values whose sums / products leave the dtype's range or precision
+    small = bool(small)
     if d.kind == "b":
         return [True, False]
     if d.kind in "iu":
@@ -55,7 +64,7 @@ def data(rng, dt, shape, small=False, to=None):
     vals = [v for v in pool(dt, small) if to is None or cast_ok(v, dt, to)]
     im = None
     if numpy.dtype(dt).kind == "c":
-        im = nested(rng, tuple(shape), [0.0, 1.0, -1.0] if small else [0.0, 1.0, -2.5, 0.5])
+        im = nested(rng, tuple(shape), [0.0, 1.0, 16777216.0] if small == "wide" else [0.0, 1.0, -1.0] if small else [0.0, 1.0, -2.5, 0.5])
     return {"re": nested(rng, tuple(shape), vals), "im": im}
 
 
@@ -88,8 +97,24 @@ def laid_out(c, how):
 
 
 def terms(spec):
-    return [(MPoly.mono(spec["names"], e), laid_out(arr(spec["dtype"], c), spec.get("layout")))
-            for e, c in zip(spec["exponents"], spec["cols"])]
+    """[(monomial, column)]; spec["dtypes"] (optional) gives every column its own dtype, spec["dtype"] is that of the first."""
+    dts = spec.get("dtypes") or [spec["dtype"]] * len(spec["cols"])
+    return [(MPoly.mono(spec["names"], e), laid_out(arr(dt, c), spec.get("layout")))
+            for e, c, dt in zip(spec["exponents"], spec["cols"], dts)]
+
+
+def mixed_spec(rng, first, shape, to=None):
+    """2-3 columns, constant term first (never pruned); the first has dtype `first`, at least one later column another dtype."""
+    D = rng.choice([1, 2])
+    rows = [[0] * D] + sorted({tuple(rng.choice([0, 1, 2]) for _ in range(D)) for _ in range(2)} - {(0,) * D})
+    dts = [first] + [rng.choice([d for d in DTYPES if d != first]) if i == 0 else rng.choice(DTYPES) for i in range(len(rows) - 1)]
+    return {"dtype": first, "dtypes": dts, "shape": list(shape), "names": NAMES[:D], "exponents": [list(r) for r in rows],
+            "cols": [data(rng, dt, shape, False, to or first) for dt in dts], "layout": rng.choice(["c", "strided", "readonly"])}
+
+
+def pyvalues(s):
+    """Columns as Python / numpy scalars (0-d specs only)."""
+    return [c[()] if s.get("scalars") == "numpy" else c.item() for _, c in terms(s)]
 
 
 def tpoly(spec, **kw):
@@ -158,6 +183,33 @@ ROUTES = {
     "iter": lambda n, x, s, kw: n.polynomial(list(tpoly(s))), "copy": lambda n, x, s, kw: tpoly(s).copy(),
     "astype": lambda n, x, s, kw: tpoly(s).astype(kw["dtype"]), "astype_dtype_object": lambda n, x, s, kw: tpoly(s).astype(numpy.dtype(kw["dtype"])),
 }
+MIXED = {      # one constructor call given coefficients of different dtypes
+    "mixed_attrs": lambda n, x, s, kw: n.polynomial_from_attributes(s["exponents"], [c for _, c in terms(s)], tuple(s["names"]), **kw),
+    "mixed_attrs_retain": lambda n, x, s, kw: tpoly(s, **kw),
+    "mixed_from_attributes": lambda n, x, s, kw: n.ndpoly.from_attributes(s["exponents"], [c for _, c in terms(s)], tuple(s["names"]), **kw),
+    "mixed_dict": lambda n, x, s, kw: n.polynomial(_dict(s), names=tuple(s["names"]), **kw),
+    "mixed_dict_scalars": lambda n, x, s, kw: n.polynomial(dict(zip(map(tuple, s["exponents"]), pyvalues(s))), names=tuple(s["names"]), **kw),
+    "mixed_attrs_scalars": lambda n, x, s, kw: n.polynomial_from_attributes(s["exponents"], pyvalues(s), tuple(s["names"]), **kw),
+}
+ROUTES.update(MIXED)
+PY_DTYPES = ["bool", "int64", "float64", "complex128"]       # what Python scalars become
+
+
+def gen_mixed(tier, rng, pairs):
+    for first, to in pairs:
+        for ctor in MIXED:
+            scal = ctor.endswith("scalars")
+            if scal and rng.random() < 0.5:
+                s = mixed_spec(rng, rng.choice(PY_DTYPES), (), to)
+                s["dtypes"] = [s["dtype"]] + [rng.choice(PY_DTYPES) for _ in s["dtypes"][1:]]
+                s["cols"] = [data(rng, dt, (), False, to or s["dtype"]) for dt in s["dtypes"]]
+                s["scalars"] = "python"
+            else:
+                s = mixed_spec(rng, first, () if scal else rng.choice(SHAPES), to)
+                s["scalars"] = "numpy"
+            yield {"ctor": ctor, "p": s, **({"b": to} if to else {})}
+
+
 CTORS = ["array", "scalar", "as_array", "attrs", "attrs_clean", "dict", "poly", "struct", "compose", "iter", "copy"]
 DCTORS = ["array", "as_array", "as_poly", "poly", "attrs", "dict", "compose", "astype", "astype_dtype_object"]
 
@@ -169,6 +221,8 @@ def gen_from_data(tier, rng):
                 const = ctor in ("array", "scalar", "as_array")
                 shape = () if ctor == "scalar" else rng.choice([(3,), (2,)] if ctor in ("compose", "iter") else SHAPES)
                 yield {"ctor": ctor, "p": tspec(rng, a, shape, const=const)}
+    for _ in range(count(tier, 2, 12)):
+        yield from gen_mixed(tier, rng, [(a, None) for a in DTYPES])
 
 
 @check("C12", "construct.from_data", gen_from_data,
@@ -176,13 +230,19 @@ def gen_from_data(tier, rng):
                   "numpoly.ndpoly.__iter__", "numpoly.construct.compose.compose_polynomial_array"),
        note="bounded: all 14 dtypes x 11 construction routes (ndarray, numpy scalar, attributes, dict, ndpoly, raw structured "
             "view, list of polynomials, iteration, copy); <=3 terms, <=2 indeterminates, exponents<=2, 5 shapes, C/Fortran/strided/read-only data; "
-            "values incl. dtype extremes; result dtype = data dtype, values equal")
+            "values incl. dtype extremes; result dtype = data dtype, values equal; plus 6 routes given columns (arrays, numpy or Python "
+            "scalars) of DIFFERENT dtypes in one call (constant term first): dtype = that of the first column (numpy's promotion of all "
+            "also accepted), every value = numpy's astype of the given value to it")
 @quiet
 def from_data(inp):
     import numpoly
     s = inp["p"]
     tms = terms(s)
-    return judge(ROUTES[inp["ctor"]](numpoly, tms[0][1], s, {}), tms, s["dtype"], tuple(s["shape"]))
+    r = ROUTES[inp["ctor"]](numpoly, tms[0][1], s, {})
+    dtype = numpy.dtype(s["dtype"])
+    if "dtypes" in s and isinstance(r, numpoly.ndpoly) and r.dtype == numpy.result_type(*[c.dtype for _, c in tms]):
+        dtype = r.dtype     # mixed columns: the dtype of the first (what numpoly documents) or numpy's promotion of all
+    return judge(r, cast_terms(tms, dtype), dtype, tuple(s["shape"]))
 
 
 def gen_request(tier, rng):
@@ -191,6 +251,8 @@ def gen_request(tier, rng):
             const = ctor in ("array", "as_array")
             shape = (2,) if ctor == "compose" else rng.choice(SHAPES)
             yield {"b": b, "ctor": ctor, "p": tspec(rng, a, shape, to=b, const=const)}
+    for _ in range(count(tier, 1, 6)):
+        yield from gen_mixed(tier, rng, [(a, rng.choice([a, a] + DTYPES)) for a in DTYPES])
 
 
 def _request(inp):
@@ -204,11 +266,12 @@ def only(*ctors):
     return lambda tier, rng: (i for i in gen_request(tier, rng) if i["ctor"] in ctors)
 
 
-@check("C12", "construct.dtype_request", only("array", "as_array", "as_poly", "poly", "attrs", "dict"),
+@check("C12", "construct.dtype_request", only("array", "as_array", "as_poly", "poly", "attrs", "dict", *MIXED),
        functions=("numpoly.polynomial", "numpoly.aspolynomial", "numpoly.polynomial_from_attributes"),
        note="bounded: all 196 ordered dtype pairs x 6 routes with dtype= (ndarray, aspolynomial of ndarray/ndpoly, ndpoly, "
             "attributes, dict); expected = numpy.array(data, a).astype(b); data (incl. dtype extremes) restricted to values whose "
-            "C cast a->b is defined and finite; <=3 terms, <=2 indeterminates, 5 shapes")
+            "C cast a->b is defined and finite; <=3 terms, <=2 indeterminates, 5 shapes; plus the 6 mixed-dtype-column routes of "
+            "construct.from_data with dtype= (equal to the first column's dtype half of the time)")
 @quiet
 def dtype_request(inp):
     return _request(inp)
@@ -304,12 +367,29 @@ def gen_arith(tier, rng):
                "y": {"kind": kb, "p": tspec(rng, b, sb, small=True, const=kb != "poly")}}
 
 
-@check("C12", "arith.mixed_dtypes", gen_arith, functions=("numpoly.add", "numpoly.subtract", "numpoly.multiply", "numpoly.align_shape",
+ONE_SIDED = [((2,), ()), ((), (2,)), ((1,), (3,)), ((3,), (1,)), ((2, 2), (2,)), ((2,), (2, 2)), ((2, 1, 2), (2,)), ((2, 2), ()), ((1, 2), (2, 2))]
+
+
+def gen_arith_all(tier, rng):
+    yield from gen_arith(tier, rng)
+    for a in WIDE:      # exactly one operand is broadcast and the values overflow the narrow dtype
+        for b in [a, a, a] + rng.sample(DTYPES, count(tier, 2, 8)):
+            for op in ("add", "sub", "mul"):
+                for _ in range(count(tier, 1, 4)):
+                    sa, sb = rng.choice(ONE_SIDED)
+                    ka, kb = rng.choice([("poly", "poly"), ("poly", "const"), ("const", "poly"), ("const", "const"), ("poly", "array"), ("array", "const")])
+                    yield {"op": op, "x": {"kind": ka, "p": tspec(rng, a, sa, small="wide", const=ka != "poly")},
+                           "y": {"kind": kb, "p": tspec(rng, b, sb, small="wide" if b in WIDE else True, const=kb != "poly")}}
+
+
+@check("C12", "arith.mixed_dtypes", gen_arith_all, functions=("numpoly.add", "numpoly.subtract", "numpoly.multiply", "numpoly.align_shape",
                                                              "numpoly.align_polynomials", "numpoly.simple_dispatch"),
        note="bounded: all 196 ordered dtype pairs x {+,-,*} x operand forms (non-constant ndpoly, constant ndpoly, ndarray, numpy "
             "scalar; never Python scalars) x 13 broadcastable shape pairs; small-integer-valued data (|v|<=7, halves for floats); "
             "expected dtype and values: numpy's ufunc on plain arrays of the same dtypes and shapes, column by column "
-            "(bool: or/and; integers wrap)")
+            "(bool: or/and; integers wrap); plus, for the 11 narrow/extreme dtypes, same-dtype and 2 (8) other partners x 9 shape pairs "
+            "where exactly one operand is broadcast, with values that overflow or lose precision (int8 100+100, uint64 2**64-1, "
+            "float16 2048+1, float32 2**24+1); inputs whose numpy result is not finite are skipped")
 @quiet
 def arith_mixed(inp):
     import operator
@@ -322,6 +402,8 @@ def arith_mixed(inp):
         want = np_mul(X, Y) if inp["op"] == "mul" else np_add(X, Y, shx, shy, sx["dtype"], sy["dtype"], f)
     except TypeError:
         return None         # numpy has no such operation for these dtypes
+    if not all(numpy.all(numpy.isfinite(c)) for _, c in want):
+        return None         # inf/nan cannot be compared in the exact model
     x, y = opnd(inp["x"]), opnd(inp["y"])
     r = {"add": operator.add, "sub": operator.sub, "mul": operator.mul}[inp["op"]](x, y)
     return judge(r, want, probe.dtype, probe.shape)
